@@ -5,7 +5,8 @@
    every limit, every number of tasks, every accepted trace = every schedule of the submitting goroutines and the workers,
    and every pattern of returning / panicking tasks; [ids] is any duplicate-free universe containing the submitted ids. *)
 From Coq Require Import List ZArith Bool.
-From V Require Import Lib.Enc Gen.ConstsGoz Model.Limiter Run.C19 Proofs.Limiter Proofs.LimiterShape Proofs.LimiterRun Proofs.LimiterSim.
+From V Require Import Lib.Enc Gen.ConstsGoz Model.Limiter Run.C19 Proofs.Limiter Proofs.LimiterShape Proofs.LimiterRun Proofs.LimiterSim
+  Proofs.LimiterJudgeTrace Proofs.LimiterJudgeSim Proofs.LimiterJudge Proofs.LimiterJudgeWait.
 Import ListNotations.
 
 (* the code still has the statement order the event model stands for (regenerated from goz.go on every run):
@@ -105,3 +106,61 @@ Theorem c19_simulate_is_model_trace : forall n ops,
     accept_obs (new_limiter n) 0 tr = inl s /\ wg s = 0 /\ tokens s = 0 /\ ends_with_waitret tr = true.
 Proof. exact simulate_is_model_trace. Qed.
 Print Assumptions c19_simulate_is_model_trace.
+
+
+(* run family 0, totality of the prediction: for every limit and every script — ANY list of integers: run_script ignores unknown op
+   codes and a trailing odd element, takes kinds mod 7 and skips GO at 40 tasks, so no well-formedness premise is needed and nothing
+   is excluded — the model's answer is never NOFUEL, and MAXTASKS rounds of drain (a third of the 3 * MAXTASKS it is given) already
+   release every running task *)
+Theorem c19_simulate_total : forall n ops,
+  simulate n ops <> [NOFUEL] /\
+  (forall f, MAXTASKS <= f -> s_act (drain f (run_script (sim0 n) ops)) = []).
+Proof. exact simulate_total. Qed.
+Print Assumptions c19_simulate_total.
+Theorem c19_simulate_is_model_trace_total : forall n ops,
+  exists tr fin s, simulate n ops = put_list (enc_trace tr) ++ fin /\
+    accept_obs (new_limiter n) 0 tr = inl s /\ wg s = 0 /\ tokens s = 0 /\ ends_with_waitret tr = true.
+Proof. exact simulate_model_trace_total. Qed.
+Print Assumptions c19_simulate_is_model_trace_total.
+
+(* run family 0, the judge accepts the model: the specification predicate that sub 2 applies to the implementation's observed
+   output (no HANG, gauge <= limit after every event, every task exactly once and in order with RAISE answered by the handler,
+   every WAITRET after all tasks submitted before its WAITCALL ended, final WAITRET, step-by-step acceptance with everything
+   finished, and the three counters) accepts the model's own predicted output, for every limit and every script *)
+Theorem c19_judge_accepts_model : forall n ops, spec_script n (simulate n ops) = true.
+Proof. exact judge_accepts_model. Qed.
+Print Assumptions c19_judge_accepts_model.
+(* the same at token level, as Run.C19.entry computes it: for every integer list that is a family-0 case (wf_case: head 0, then
+   the limit, then any script; it excludes only the other families and lists shorter than 2), sub 2 on the case paired with the
+   sub 0 answer is [1], and the sub 0 answer is not NOFUEL *)
+Theorem c19_judge_accepts_model_tokens : forall case, wf_case case = true ->
+  entry 2 (put_list case ++ put_list (entry 0 case)) = [1%Z] /\ entry 0 case <> [NOFUEL].
+Proof. exact judge_accepts_entry. Qed.
+Print Assumptions c19_judge_accepts_model_tokens.
+
+(* Wait(d) with a timeout, as two more events on top of the event model (evt / step_t / accepts_t; the Go method returns nothing,
+   [ok] names the select branch taken): c19_wait_after_all extended — Wait() and the quit branch of Wait(d) stand only where every
+   function submitted before has finished, in traces that may contain timeout events anywhere *)
+Theorem c19_wait_after_all_with_timeout : forall ids n tr1 e tr2 s,
+  NoDup ids -> (forall i, In (Ev (Submit i)) tr1 -> In i ids) ->
+  e = Ev WaitReturn \/ e = WaitTimeoutReturn true ->
+  accepts_t (new_limiter n) (tr1 ++ e :: tr2) = Some s ->
+  exists s1, accepts_t (new_limiter n) tr1 = Some s1 /\ forall i, In (Ev (Submit i)) tr1 -> tasks s1 i = Finished.
+Proof. exact wait_timeout_after_all. Qed.
+Print Assumptions c19_wait_after_all_with_timeout.
+(* the timer branch is enabled in every state (it implies nothing: here a task is still running), while in that state neither
+   the quit branch nor Wait() can return *)
+Theorem c19_wait_timeout_may_expire :
+  (forall s, step_t s (WaitTimeoutReturn false) = Some s) /\
+  (exists s, accepts_t (new_limiter 1) [Ev (Submit 0); Ev (Start 0); WaitTimeoutReturn false] = Some s /\ tasks s 0 = Running) /\
+  accepts_t (new_limiter 1) [Ev (Submit 0); Ev (Start 0); WaitTimeoutReturn true] = None /\
+  accepts_t (new_limiter 1) [Ev (Submit 0); Ev (Start 0); Ev WaitReturn] = None.
+Proof. exact wait_timeout_may_expire. Qed.
+Print Assumptions c19_wait_timeout_may_expire.
+(* timeout events never change the state: the base events of an accepted trace are accepted by the event model with the same final
+   state, so every theorem above applies to them; without timeout events acceptance is what it was *)
+Theorem c19_wait_timeout_transparent :
+  (forall tr s s', accepts_t s tr = Some s' -> accepts s (base_events tr) = Some s') /\
+  (forall tr s, accepts_t s (map Ev tr) = accepts s tr).
+Proof. exact wait_timeout_transparent. Qed.
+Print Assumptions c19_wait_timeout_transparent.
